@@ -250,7 +250,8 @@ fn body(which: Which, slots: usize) -> impl Fn(&Ch) -> Run + Sync + Send {
   move |ch: &Ch| {
     let mut run = Run::default();
     let g = gen_package(ch, slots);
-    let Some(r) = fast_check(&[g.pkg.clone()], None, ch) else {
+    let dep_is_root = ch.choose("root_imports_dependency_package_too", 2) == 1;
+    let Some(r) = fast_check_rooted(&[g.pkg.clone(), g.dep.clone()], if dep_is_root { 2 } else { 1 }, None, ch) else {
       run.violate("build-did-not-finish", "deadlock", json!({}));
       return run;
     };
@@ -259,7 +260,8 @@ fn body(which: Which, slots: usize) -> impl Fn(&Ch) -> Run + Sync + Send {
       run.violate("generated-package-does-not-build", format!("{:?}", r.graph_errors), case(json!({})));
       return run;
     }
-    let entrypoints: Vec<String> = g.pkg.exports.iter().map(|(_, p)| g.pkg.url(p.trim_start_matches('.'))).collect();
+    let mut entrypoints: Vec<String> = g.pkg.exports.iter().map(|(_, p)| g.pkg.url(p.trim_start_matches('.'))).collect();
+    entrypoints.push(g.dep.url("/mod.ts"));
     check_result(which, &r, &entrypoints, &g.unused_markers, &mut run, &case);
     let with_output = r.modules.values().filter(|(_, s)| matches!(s, FcSlot::Module { .. })).count();
     let with_diag = r.modules.values().filter(|(_, s)| matches!(s, FcSlot::Diagnostics(_))).count();
